@@ -575,6 +575,13 @@ def run_real(case):
         ch.task_class = mk(wtask.WSGITask)
         ch.error_task_class = mk(wtask.ErrorTask)
         ch.requests = [request]
+        if case.get("pending_continue"):
+            # the same recv() that completed this request also delivered the complete head of a NEXT request
+            # with Expect: 100-continue whose body is outstanding: it waits in channel.request for its signal
+            pend = StubRequest("1.1", None, False, None)
+            pend.expect_continue = True
+            pend.completed = False
+            ch.request = pend
         if disc is not None and not (0 < disc):
             ch.connected = False
         if case.get("wc"):
@@ -632,6 +639,8 @@ def run_real(case):
             "worker_died": worker_died,
             "raised": raise_log,
             "swallowed": list(rec.swallowed),
+            "sent_continue": bool(ch.sent_continue),
+            "flushed_by_service": hexb(sock.sent) if sock.sent else "",
             "got_iterable": getattr(rec, "got_iterable", False),
             "requests_left": len(ch.requests),
             "request_closed": request.closed,
@@ -1322,6 +1331,67 @@ def container_cases(rng, tier):
     return out
 
 
+def pending_continue_cases(rng, tier):
+    """a partially received next request that waits for "100 Continue" (channel.request) while the task
+    runs: fault bases x fault positions x exception classes x log_socket_errors x Connection.  After a
+    close decision nothing more may be written -- in particular no interim response."""
+    import copy
+    out = []
+    reqs = [("1.1", None, False), ("1.1", "close", False), ("1.0", "keep-alive", False)]
+    for bi, base in enumerate(FAULT_BASES):
+        if base[2][0] == "file":
+            continue        # the deferred send_continue flushes: a handed-over file would be consumed by the fake socket
+        for ri, (version, conn, head) in enumerate(reqs):
+            if tier == "quick" and ri != bi % len(reqs):
+                continue
+            plain = fault_base_case(base, version=version, conn=conn, head=head)
+            for pos in fault_positions(plain):
+                for exc in (FAULT_CLASSES if pos != ("none",) else ["-"]):
+                    for logsock in (True, False):
+                        c = copy.deepcopy(with_fault(plain, pos, exc))
+                        c["cfg"]["logsock"] = logsock
+                        c["pending_continue"] = True
+                        out.append((("pending 100-continue", base[0], pos[0], exc, logsock, version, str(conn)), c))
+    return out
+
+
+def name_path_cases():
+    """every special-cased / nearly special-cased header NAME on every delivery path of the body: the
+    application's fields must be in the head whichever way the body travels (iterable, write(), file wrapper
+    handed over with / without a declared length that is equal to, smaller or larger than the file --
+    prepare(size) then rewrites response_headers)."""
+    out = []
+    names = ["", "-", "Content", "Length", "content-", "-length", "t", "T", "Ten", "On", "Content-Lengt", "Content-Length-X",
+             "XContent-Length", "Content_Length", "Date", "Dat", "Serve", "Server", "Vi", "Via", "Connectio", "Keep", "Te-x",
+             "X-A", "Set-Cookie", "content-type", "ETag"]
+    body = b"abcdef"
+    req_mix = [("1.1", None), ("1.0", "keep-alive"), ("1.1", "close"), ("1.0", None)]
+    k = 0
+    for nm in names:
+        for second in (None, "X-Second"):
+            base = [(nm, "v1")] + ([(second, "v2"), (nm, "v3")] if second else [])
+            paths = []
+            for cl in (None, 6, 3, 9, 0):
+                hs = base + ([("Content-Length", str(cl))] if cl is not None else [])
+                for pos in (0, len(hs)) if cl is not None else (0,):
+                    h2 = list(hs)
+                    if cl is not None and pos == 0:
+                        h2 = [h2[-1]] + h2[:-1]
+                    tagc = "CL=%s@%d" % (cl, pos)
+                    paths.append(("seekable file, " + tagc, [S("200 OK", h2)], ("file", True), [Y(b"abcd"), Y(b"ef")], {"block_size": 4}))
+                    paths.append(("non-seekable file, " + tagc, [S("200 OK", h2)], ("file", False), [Y(b"abcd"), Y(b"ef")], {"block_size": 4}))
+                    paths.append(("generator, " + tagc, [S("200 OK", h2)], ("gen",), [Y(b"abc"), Y(b"def")], {}))
+                    paths.append(("write(), " + tagc, [S("200 OK", h2), W(b"abc")], ("gen",), [Y(b"def")], {}))
+                    paths.append(("list of one chunk, " + tagc, [S("200 OK", h2)], ("sized", 1), [Y(body)], {"has_close": False}))
+                    paths.append(("204 + seekable file, " + tagc, [S("204 No Content", h2)], ("file", True), [Y(b"abcd"), Y(b"ef")], {"block_size": 4}))
+            for ptag, call, kind, steps, extra in paths:
+                version, conn = req_mix[k % len(req_mix)]
+                k += 1
+                out.append((("name x path", repr(nm), bool(second), ptag),
+                            mk_case(call, kind=kind, steps=steps, version=version, conn=conn, **extra)))
+    return out
+
+
 def liar_cases():
     """str subclasses whose __contains__ / lower() lie: OUTSIDE C08's quantifier (the assumption
     'application strings are plain str'); run for the record, never judged"""
@@ -1488,7 +1558,7 @@ def fault_cases(rng, tier):
                         out.append((("error task", cls), mk_case(version=version, conn=conn, err=[cls, body], disc=disc, ident=ident)))
                     # the same error answered to a HEAD request: no body is written (one write_soon less)
                     out.append((("error task", cls, "HEAD"), mk_case(version=version, conn=conn, err=[cls, body], disc=disc, head=True)))
-    return out + hostile_error_cases(rng, tier)
+    return out + hostile_error_cases(rng, tier) + pending_continue_cases(rng, tier)
 
 
 def random_script(rng):
